@@ -1,6 +1,7 @@
 import Gv.Oracle.ProtDist
+import Gv.Oracle.Det
 import Gv.Oracle.Loop
 /-! oracle of property C17: only the handlers it needs -/
 open Gv Gv.Oracle
 
-def main : IO Unit := runOracle [ProtDistOps.handle]
+def main : IO Unit := runOracle [ProtDistOps.handle, DetOps.handle]
